@@ -29,7 +29,9 @@ func (x *exec) appendSite(fr *frame, s *State, args []*Val, pos token.Pos) {
 	s1 := s.clone()
 	saveClaims := x.suppress
 	x.suppress = true // implicit-panic obligations inside the stored closures are not part of this claim
+	x.recording, x.recStores = true, nil
 	x.inline(fr, s1, ex.Fn, nil, ex.Bind, pos)
+	x.recording = false
 	afterExec := s1.clone()
 	x.inline(fr, s1, rb.Fn, nil, rb.Bind, pos)
 	x.suppress = saveClaims
@@ -97,11 +99,20 @@ func (x *exec) compareStates(fr *frame, s0, mid, s1 *State, kind, label string, 
 				Imp(Sel(Sel(t0, r), k), Eq(Sel(Sel(v1, r), k), Sel(Sel(v0, r), k))),
 				Eq(Sel(c1, r), Sel(c0, r)))
 			if mid != nil {
-				// A-FRESHKEY: a key that execute leaves in the map and rollback deletes was absent when the pair was appended
+				// A-FRESHKEY: a key that execute assigns (m[k] = v executed in the execute closure), leaves in the map
+				// and rollback deletes was absent when the pair was appended
 				tm := x.h.get(mid, n, sortN)
 				kq := x.c.Fresh("fk")
-				relax = fmt.Sprintf("(forall ((%s %s)) (! (=> (and (select (select %s %s) %s) (not (select (select %s %s) %s))) (not (select (select %s %s) %s))) :pattern ((select (select %s %s) %s))))",
-					kq, ks, tm, r, kq, t1, r, kq, t0, r, kq, t0, r, kq)
+				var stored []string
+				for _, st := range x.recStores {
+					if st.name == n {
+						stored = append(stored, And(st.cond, Eq(r, st.ref), Eq(kq, st.key)))
+					}
+				}
+				if len(stored) > 0 {
+					relax = fmt.Sprintf("(forall ((%s %s)) (! (=> (and (select (select %s %s) %s) (not (select (select %s %s) %s)) %s) (not (select (select %s %s) %s))) :pattern ((select (select %s %s) %s))))",
+						kq, ks, tm, r, kq, t1, r, kq, Or(stored...), t0, r, kq, t0, r, kq)
+				}
 			}
 		case valueSortOf(sortN) == "Slice":
 			// slices: same length and same elements (the backing store may have been reallocated)
